@@ -689,4 +689,51 @@ theorem valueIs_exact_int_text (cs : List Char) (n t : Nat) (hne : cs ≠ [])
   simp only [valueIs, parseDec_digits cs hne hd, hv, Option.map_some]
   exact decIsKey_exact_int n t ht hf
 
+
+/-- an accepted JSON object has only expected keys (a stray or misspelt key in schema.json is a
+    difference, never ignored) -/
+theorem keysWithin_ok (j : J) (allowed : List String) (what : String)
+    (h : keysWithin j allowed what = .ok ()) :
+    ∃ kv, j = .obj kv ∧ ∀ p ∈ kv, ∃ a ∈ allowed, sbytes a = p.1 := by
+  match j, h with
+  | .obj kv, h =>
+    refine ⟨kv, rfl, ?_⟩
+    simp only [keysWithin] at h
+    split at h
+    · simp at h
+    · rename_i hnone
+      intro p hp
+      have := List.find?_eq_none.mp hnone p hp
+      simpa using this
+  | .null, h | .bool _, h | .num _, h | .str _, h | .arr _, h => simp [keysWithin] at h
+
+
+/-- accepted constraints are the model's constraints, flag by flag (absent flag = false) -/
+theorem checkCons_ok (j : J) (c : Cons) (what : String) (h : checkCons (some j) c what = .ok ()) :
+    getBool j "index" (some false) = .ok c.index ∧ getBool j "unique" (some false) = .ok c.unique ∧
+    getBool j "upper" (some false) = .ok c.upper ∧ getBool j "lower" (some false) = .ok c.lower := by
+  simp only [checkCons, bind, Except.bind] at h
+  split at h
+  · simp at h
+  · split at h
+    · simp at h
+    · rename_i i hi
+      split at h
+      · simp at h
+      · rename_i u hu
+        split at h
+        · simp at h
+        · rename_i up hup
+          split at h
+          · simp at h
+          · rename_i lo hlo
+            simp only [expect] at h
+            split at h
+            · rename_i hc
+              simp only [Bool.and_eq_true, beq_iff_eq] at hc
+              obtain ⟨⟨⟨h1, h2⟩, h3⟩, h4⟩ := hc
+              subst h1 h2 h3 h4
+              exact ⟨hi, hu, hup, hlo⟩
+            · simp at h
+
 end Sod.Codec
